@@ -5,7 +5,7 @@ import ast
 
 import z3
 
-from .interp import Frame, RaiseSig, Unsupported, _m, BUILTIN_EXC_BASES
+from .interp import seq_concat, Frame, RaiseSig, Unsupported, _m, BUILTIN_EXC_BASES
 from .tys import (NONE, SV, PyList, PyTuple, Ref, TAbs, TAny, TBool, TDict, TEnum, TInt, TNone, TObj, TOpt, TRec,
                   TSeq, TSet, TStr, TTuple, TUnion, Ty, VBuiltin, VClass, VExc, VFunc, VGen, VLambda, VModule,
                   VRange, VSlice)
@@ -27,6 +27,8 @@ class Builtins:
         if name.startswith("method:"):
             return self.method(it, fn.bound, name[7:], args, kwargs, fr, node)
         if name.startswith("ext:"):
+            if fn.bound is not None:
+                args = [fn.bound] + list(args)
             return self.cdb.externals.call(it, name[4:], args, kwargs, fr, node)
         h = getattr(self, "b_" + name.replace(".", "_"), None)
         if h is None:
@@ -108,7 +110,7 @@ class Builtins:
             if v.ty is TBool:
                 return SV(TStr, z3.If(v.term, z3.StringVal("True"), z3.StringVal("False")))
             if v.ty is TInt:
-                return SV(TStr, z3.If(v.term >= 0, z3.IntToStr(v.term), z3.Concat(z3.StringVal("-"), z3.IntToStr(-v.term))))
+                return SV(TStr, z3.If(v.term >= 0, z3.IntToStr(v.term), seq_concat(z3.StringVal("-"), z3.IntToStr(-v.term))))
             if isinstance(v.ty, (TObj, TRec)):
                 m = it.w.find_method(v.ty.cls, "__str__") or it.w.find_method(v.ty.cls, "__repr__")
                 if m is not None:
@@ -457,11 +459,11 @@ class Builtins:
         t = s.ty
         if name == "append":
             e = it.coerce(args[0], t.elem).term
-            self.writeback(it, node, SV(t, z3.Concat(s.term, z3.Unit(e))), fr)
+            self.writeback(it, node, SV(t, seq_concat(s.term, z3.Unit(e))), fr)
             return NONE
         if name == "extend":
             o = it.coerce(it.iter_to_seq(args[0], fr), t)
-            self.writeback(it, node, SV(t, z3.Concat(s.term, o.term)), fr)
+            self.writeback(it, node, SV(t, seq_concat(s.term, o.term)), fr)
             return NONE
         if name == "pop":
             ln = z3.Length(s.term)
@@ -479,7 +481,7 @@ class Builtins:
         if name == "remove":
             i = self.cdb.externals.seq_index(it, s, args[0], fr)
             ln = z3.Length(s.term)
-            new = z3.Concat(z3.SubSeq(s.term, 0, i.term), z3.SubSeq(s.term, i.term + 1, ln - i.term - 1))
+            new = seq_concat(z3.SubSeq(s.term, 0, i.term), z3.SubSeq(s.term, i.term + 1, ln - i.term - 1))
             self.writeback(it, node, SV(t, new), fr)
             return NONE
         if name == "decode" and t.bytes_:
